@@ -333,7 +333,20 @@ impl Display for Format<'_, Formula> {
             Formula::AtomicFormula(a) => Format(a).fmt(f),
             Formula::UnaryFormula { formula, .. } => self.fmt_unary(Format(formula.as_ref()), f),
             Formula::QuantifiedFormula { formula, .. } => {
-                self.fmt_unary(Format(formula.as_ref()), f)
+                let inner = Format(formula.as_ref());
+                let text = inner.to_string();
+                // the variable list of a quantifier is greedy: a comparison that begins
+                // with a variable would lose that variable to the list when parsed again
+                if matches!(
+                    formula.as_ref(),
+                    Formula::AtomicFormula(AtomicFormula::Comparison(_))
+                ) && text.starts_with(|c: char| c.is_ascii_uppercase() || c == '_')
+                {
+                    self.fmt_operator(f)?;
+                    write!(f, "({text})")
+                } else {
+                    self.fmt_unary(inner, f)
+                }
             }
             Formula::BinaryFormula { lhs, rhs, .. } => {
                 self.fmt_binary(Format(lhs.as_ref()), Format(rhs.as_ref()), f)
